@@ -2,11 +2,11 @@
 (* The STARK protocol at the level of its integer parameters (property C01) and of its transcript (property C04).
 
    Part 1 - parameters.  A statement is a tuple
-       t = [ln, width, degs, cycles, pcol, k, nasserts, q, lb, grind, fold, rem, ext, bits, auxd, auxr, lag, nauxa]
+       t = [ln, width, degs, cycles, pcol, k, nasserts, q, lb, grind, fold, rem, ext, bits, auxd, auxr, lag, nauxa, meta]
    (trace length 2^ln, number of columns, per-column constraint degree, periodic cycle lengths and their use,
    transition exemptions, number of assertions, proof options, extension degree, field size; auxiliary segment: degrees
    of its running-sum (1) / running-product (2) columns, number of random elements, Lagrange kernel column 0/1 (one
-   more column, the last), number of auxiliary assertions).  Admissible(t)
+   more column, the last), number of auxiliary assertions; meta: number of bytes of trace metadata).  Admissible(t)
    transcribes the quantifier of C01; the operators below transcribe every derived quantity and every guard that
    prover, serialization and verifier evaluate on these integers on the honest path.  HonestPathOK(t) states that
    no guard fails; the design-level theorem checked by TLC is  Admissible(t) => HonestPathOK(t).             *)
@@ -120,6 +120,7 @@ Admissible(t) ==
     /\ \A c \in DOMAIN t.cycles : IsPow2(t.cycles[c]) /\ t.cycles[c] >= 2 /\ t.cycles[c] <= N(t)
     /\ t.k >= 1 /\ t.k <= N(t) \div 2 + 1 /\ t.k <= MaxExemptions(t)
     /\ t.nasserts >= 1
+    /\ t.meta >= 0 /\ t.meta <= 65535                                           \* TraceInfo::MAX_META_LENGTH
     /\ t.lag \in {0, 1} /\ (t.lag = 1 => NAux(t) >= 1)                          \* the context wants one auxiliary constraint
     /\ TotalWidth(t) <= 255 /\ t.auxr >= 0 /\ t.auxr <= 255 /\ (AuxW(t) = 0 => t.auxr = 0)
     /\ \A j \in 1..NAux(t) : t.auxd[j] \in {1, 2} /\ AuxMinBlowup(t, j) <= B(t)
